@@ -1,11 +1,12 @@
 CFG = dict(
-    lean_modules=["SaramaVerif.Model.Producer", "SaramaVerif.Props.C01"],
+    lean_modules=["SaramaVerif.Model.Producer", "SaramaVerif.Props.C01", "SaramaVerif.Model.SyncShim", "SaramaVerif.Props.C01sync"],
     lean_support=["SaramaVerif.Driver.ProducerTrace"],
     model="C01",
     overlay=["sim", "c01"],
     required_theorems=["Props.C01.init_inv", "Props.C01.step_inv", "Props.C01.run_inv", "Props.C01.reachable_inv",
                        "Props.C01.at_most_one_outcome", "Props.C01.no_phantom_outcome", "Props.C01.closed_implies_exactly_one",
-                       "Props.C01.close_after_all_outcomes", "Props.C01.close_only_when_drained", "Props.C01.pass_bound"],
+                       "Props.C01.close_after_all_outcomes", "Props.C01.close_only_when_drained", "Props.C01.pass_bound",
+                       "Props.C01sync.read_returns_own_slot", "Props.C01sync.step_inv", "Props.C01sync.sync_return_is_own_outcome"],
     n={"quick": 700, "thorough": 12000, "search": 1500},
     thorough_seeds=3,
     timeout={"quick": 600, "thorough": 3000},
